@@ -2252,13 +2252,26 @@ impl<'a, 'b, W: Write> SerializeMap for MapSer<'a, 'b, W> {
                     let saved_inline_map_after_dash = self.ser.inline_map_after_dash;
                     let saved_after_dash_depth = self.ser.after_dash_depth;
 
-                    self.ser.pending_inline_map = true;
                     self.ser.depth = self.depth;
                     // Provide a base depth for nested maps within this complex key so that
                     // continuation lines indent one level deeper than the parent mapping.
                     self.ser.current_map_depth = Some(self.depth);
                     self.ser.after_dash_depth = None;
-                    key.serialize(&mut *self.ser)?;
+                    if self.ser.indent_step != 2 || self.ser.compact_list_indent {
+                        // The block layout of a composite key lines its continuation lines up
+                        // two columns in (the width of "? "). That only coincides with the
+                        // indentation the nested emitters produce for indent_step == 2 without
+                        // compact list indentation; otherwise write the key in flow style,
+                        // which does not depend on indentation.
+                        self.ser.pending_inline_map = false;
+                        self.ser.with_in_flow(|s| key.serialize(s))?;
+                        if !self.ser.at_line_start {
+                            self.ser.newline()?;
+                        }
+                    } else {
+                        self.ser.pending_inline_map = true;
+                        key.serialize(&mut *self.ser)?;
+                    }
 
                     self.ser.depth = saved_depth;
                     self.ser.current_map_depth = saved_current_map_depth;
